@@ -159,6 +159,10 @@ func build(pkg string, race bool, out string) error {
 	cmd := exec.Command("go", args...)
 	cmd.Dir = filepath.Join(verifRoot, "harness")
 	cmd.Env = goEnv()
+	if !race {
+		// pure-Go binaries: no cgo threads with 8 MiB stacks, so a monitor also runs under a small address-space limit
+		cmd.Env = append(cmd.Env, "CGO_ENABLED=0")
+	}
 	var buf bytes.Buffer
 	cmd.Stdout = &buf
 	cmd.Stderr = &buf
